@@ -163,6 +163,13 @@ def rule_seek(ctx):
     sk = [cs for cs in rb.calls if mir.method_name(cs.name) == 'seek']
     sz = [cs for cs in rb.calls if mir.method_name(cs.name).startswith('read_u')]
     rd = [cs for cs in rb.calls if mir.method_name(cs.name) == 'read_block']
+    if len(sk) > 1 and len(sz) == 1:
+        # several seeks: the one that positions the size read is the last one before it (it must be absolute, so
+        # earlier ones cannot matter; a relative last seek depends on them and on the buffer, and is reported below)
+        before = [c for c in sk if rb.dominates(c.bb, sz[0].bb)]
+        last = [c for c in before if all(o is c or rb.dominates(o.bb, c.bb) for o in before)]
+        if len(before) == len(sk) and len(last) == 1:
+            sk = last
     if len(sk) != 1 or len(sz) != 1 or len(rd) != 1:
         raise Unrecognised('seek', 'expected seek, size read and block read in BlkFile::read_block (%d/%d/%d)' % (len(sk), len(sz), len(rd)))
     sk, sz, rd = sk[0], sz[0], rd[0]
